@@ -32,6 +32,7 @@ type Program struct {
 	deepShared *Deep
 	deep       bool // deps loaded with syntax
 	allPkgs    []*packages.Package
+	embedders  map[*types.TypeName][]*types.Named
 }
 
 // Func is a declared function, method or function literal of a repo package.
@@ -350,4 +351,58 @@ func (p *Program) isGlue(f *types.Func) bool {
 		return true
 	}
 	return !knownAPI[def.Name]
+}
+
+// OwnerName names the struct that owns a field for the purposes of rule tables and lock keys. State
+// grouped on an unexported sub-struct that exactly one repository struct embeds or holds by value (and no
+// repository struct holds in any other way) is the state of the embedding struct: frameDispatch{frameMutex} embedded in Session is
+// Session.frameMutex, whether it is reached as s.frameMutex or, inside the sub-struct's own methods,
+// as d.frameMutex.
+func (p *Program) OwnerName(nt *types.Named) string {
+	if p.embedders == nil {
+		p.embedders = map[*types.TypeName][]*types.Named{}
+		for _, pk := range p.Pkgs {
+			sc := pk.Types.Scope()
+			for _, nm := range sc.Names() {
+				tn, ok := sc.Lookup(nm).(*types.TypeName)
+				if !ok || tn.IsAlias() {
+					continue
+				}
+				outer, ok := tn.Type().(*types.Named)
+				if !ok {
+					continue
+				}
+				st, ok := outer.Underlying().(*types.Struct)
+				if !ok {
+					continue
+				}
+				for i := 0; i < st.NumFields(); i++ {
+					inner, ok := derefNamedT(st.Field(i).Type())
+					if !ok || !isRepoPkg(inner.Obj().Pkg()) {
+						continue
+					}
+					if _, isStruct := inner.Underlying().(*types.Struct); !isStruct {
+						continue
+					}
+					_, byPtr := st.Field(i).Type().(*types.Pointer)
+					if st.Field(i).Embedded() || !byPtr {
+						p.embedders[inner.Obj()] = append(p.embedders[inner.Obj()], outer)
+					} else {
+						// held by pointer under a name: an object of its own, not a part of one struct
+						p.embedders[inner.Obj()] = append(p.embedders[inner.Obj()], nil)
+					}
+				}
+			}
+		}
+	}
+	seen := map[*types.TypeName]bool{}
+	for {
+		tn := nt.Obj()
+		es := p.embedders[tn]
+		if seen[tn] || len(es) != 1 || es[0] == nil || tn.Exported() {
+			return tn.Name()
+		}
+		seen[tn] = true
+		nt = es[0]
+	}
 }
